@@ -484,6 +484,28 @@ pub fn check_flag_words() -> (Vec<(Fail, Value)>, u64) {
             }
         }
     }
+    // channel control status (halfword 17): documented "0 (none) = controlling channel, 1 (bit 0) = non-controlling
+    // channel", i.e. a flag in bit 0.  The bool accessor must be 'bit 0 clear' for every word, whatever the other
+    // fifteen bits and the neighbouring halfwords hold
+    evals += 65_536;
+    for raw in 0..=0xFFFFu32 {
+        let raw = raw as u16;
+        match message_with(17, raw, !raw).and_then(|m| no_panic("controlling_channel", || m.controlling_channel())) {
+            Ok(v) => {
+                if v != (raw & 1 == 0) {
+                    fails.push((
+                        Fail::new("flag-bit:channel_control_status.controlling_channel", format!("controlling_channel() = {} for raw {:#x} (documented: bit 0 set = non-controlling channel)", v, raw)),
+                        json!({"word": "channel_control_status", "raw": raw}),
+                    ));
+                    break;
+                }
+            }
+            Err(f) => {
+                fails.push((f, json!({"word": "channel_control_status", "raw": raw})));
+                break;
+            }
+        }
+    }
     (fails, evals)
 }
 
